@@ -6,9 +6,14 @@ adjust cases : real `adjust_posterior` (real `Sample`, real `ElfiModel` with obs
                coefficients must satisfy the normal equations and its output the formula -> `ok`;
                python side: affine re-expression of the summaries gives the same adjusted values
                (full-rank designs only, as in the theorem), 'linear' string spec = instance.
+               A dedicated stream has >= 2 parameters that are non-finite at DIFFERENT rows (both directions);
+               python side `adjusted_rows`: per parameter exactly the rows whose summaries and that parameter
+               are finite (length-safe: a wrong length is a reported failure, never an exception).
 compare cases: real `compare_models` on real `Sample` objects vs the model with the argsort order as a
                validated oracle; python side: permuting the models permutes the result when no tie
-               straddles the cut.
+               straddles the cut; result = the property's formula and sums to one.  Non-finite discrepancies
+               (inf / nan in a Sample that is not the last one) are simply the largest values (numpy sort
+               order -inf < finite < inf < nan); for Coq they are embedded order-isomorphically into Q.
 """
 import math
 import numpy as np
@@ -40,6 +45,43 @@ def cql(l):
     return clist([cq(x) for x in l])
 
 
+def dkey(x):
+    """reference order of discrepancies = numpy's sort order: -inf < finite < +inf < nan (all nan equal)"""
+    x = dec(x)
+    return (1, 0.0) if math.isnan(x) else (0, x)
+
+
+def surrogate(samples):
+    """order-isomorphic embedding of the discrepancies into Q for the Coq side (which has `list Q`):
+    -inf -> (min finite) - 1, +inf -> (max finite) + 1, nan -> (max finite) + 2.  compare_models reads the
+    values only through argsort, so only the order (and which values tie) matters."""
+    fin = [dec(x) for d, _ in samples for x in d if math.isfinite(dec(x))]
+    lo, hi = (min(fin), max(fin)) if fin else (0.0, 0.0)
+
+    def f(x):
+        x = dec(x)
+        if math.isnan(x):
+            return hi + 2
+        if math.isinf(x):
+            return hi + 1 if x > 0 else lo - 1
+        return x
+    return [[[f(x) for x in d], ns] for d, ns in samples]
+
+
+def cross_rows(summ, params):
+    """pairs (A, B) of parameters such that A is non-finite at a row where B and all summaries are finite"""
+    res = set()
+    for i, row in enumerate(summ):
+        if not all(math.isfinite(dec(x)) for x in row):
+            continue
+        fin = [math.isfinite(dec(col[i])) for col in params]
+        for a in range(len(params)):
+            for b in range(len(params)):
+                if not fin[a] and fin[b]:
+                    res.add((a, b))
+    return res
+
+
 class C17(PropCheck):
     pid = 'C17'
     header = ('From Coq Require Import List ZArith QArith Bool.\nFrom Elfi Require Import Base.Harness Num.Adjust.\n'
@@ -49,13 +91,20 @@ class C17(PropCheck):
     chunk = 60
     rule = ('adjust: samples of 2-14 rows, 1-3 summaries, 1-3 parameters, grid or full-mantissa values, injected nan/inf/-inf in '
             'summaries and parameters, rows equal to the observed summaries; non-trivial = at least one row dropped by the finite '
-            'mask, masks differing between parameters or a row with s_i = s_obs, and a full-column-rank design for some parameter. '
-            'compare: 1-4 models, 0-6 samples each, integer discrepancies (ties), differing n_sim, prior weights or None; '
-            'non-trivial = >=2 models with a tie straddling the cut or differing n_sim/weights. Distinct by full input.')
+            'mask, masks differing between parameters or a row with s_i = s_obs, and a full-column-rank design for some parameter; '
+            'a dedicated stream (every run) has 2-3 parameters where parameter A is nan/inf at a row at which parameter B and all '
+            'summaries are finite and B is nan/inf at another such row (expected rows are computed per parameter). '
+            'compare: 1-4 models, 0-6 samples each, integer discrepancies (ties), differing n_sim, prior weights or None; a dedicated '
+            'stream (every run) puts inf/nan (rarely -inf) discrepancies into a Sample that is not the last one while a later model owns '
+            'the smallest discrepancy; non-trivial = >=2 models with a tie straddling the cut, differing n_sim/weights or non-finite '
+            'discrepancies in a non-last sample. Distinct by full input.')
     trusted = ('scikit-learn LinearRegression is an oracle: only "its (intercept_, coef_) solve the normal equations within 1e-9" is checked per case',
                'numpy.linalg.lstsq (centred data) as the oracle slope for the model side; numpy.argsort order is validated inside Coq (permutation + ascending)',
                'binary64 arithmetic is modelled exactly over Q: summaries - observed and the dot product are compared with tolerances (1e-12 formula, 1e-9 normal equations, 1e-8 oracle slope); generator keeps |values| <= 4 so nothing overflows',
-               'the list/Q model (Num/Adjust.v) and the matrix model (Num/AdjustMx.v) describe the same formula theta - X.b; their identification is by inspection')
+               'the list/Q model (Num/Adjust.v) and the matrix model (Num/AdjustMx.v) describe the same formula theta - X.b; their identification is by inspection',
+               'non-finite discrepancies: the reference semantics is that of the code as written (numpy.argsort: -inf < finite < +inf < nan, nans tie), i.e. inf/nan are simply the largest values; '
+               'for the Coq side (discrepancies are Q) the harness embeds them order-isomorphically (-inf -> min-1, +inf -> max+1, nan -> max+2), which is sound because compare_models reads the values only through argsort; '
+               'the python-side formula clause uses the extended order directly')
 
     # ------------------------------------------------------------------------------------------
     def _val(self, mode):
@@ -64,11 +113,11 @@ class C17(PropCheck):
             return r.randint(-16, 16) / 4.0
         return r.uniform(-4, 4)
 
-    def gen_adjust(self, malformed=False):
+    def gen_adjust(self, malformed=False, cross=False):
         r = self.rng
         k = r.randint(1, 3)
-        p = r.randint(1, 3)
-        n = r.randint(2, 14)
+        p = r.randint(2, 3) if cross else r.randint(1, 3)
+        n = r.randint(k + 4, 14) if cross else r.randint(2, 14)
         mode = r.choice(['grid', 'grid', 'float'])
         obs = [self._val('grid') for _ in range(k)]
         summ = [[self._val(mode) for _ in range(k)] for _ in range(n)]
@@ -91,6 +140,28 @@ class C17(PropCheck):
                 i = r.randrange(n)
                 summ[i] = list(obs)
                 eq += 1
+        if cross:
+            # parameter A non-finite at row i, parameter B at row j != i; at both rows every summary and every
+            # other parameter is finite: the row sets of A and B differ in both directions
+            i, j = r.sample(range(n), 2)
+            A, B = r.sample(range(p), 2)
+            for row in (i, j):
+                summ[row] = [x if not isinstance(x, str) else self._val(mode) for x in summ[row]]
+                for q in range(p):
+                    if isinstance(params[q][row], str):
+                        params[q][row] = self._val(mode)
+            params[A][i] = r.choice(['nan', 'inf', '-inf'])
+            params[B][j] = r.choice(['nan', 'inf', '-inf'])
+            # keep at least two further fully finite rows so that every parameter is adjusted
+            rest = [x for x in range(n) if x not in (i, j)]
+            for row in r.sample(rest, 2):
+                summ[row] = [x if not isinstance(x, str) else self._val(mode) for x in summ[row]]
+                for q in range(p):
+                    if isinstance(params[q][row], str):
+                        params[q][row] = self._val(mode)
+            cr = cross_rows(summ, params)
+            assert (A, B) in cr and (B, A) in cr
+            self.bump('adj:cross_forced')
         if malformed:
             # one parameter (or every row) entirely non-finite: the regression has no sample
             if r.random() < 0.5:
@@ -107,6 +178,11 @@ class C17(PropCheck):
             self.bump('adj:row_equals_observed')
         if malformed:
             self.bump('adj:malformed')
+        cr = cross_rows(summ, params)
+        if any((b, a) in cr for a, b in cr):
+            self.bump('adj:params_nonfinite_at_different_rows(both directions)')
+        elif cr:
+            self.bump('adj:params_nonfinite_at_different_rows(one direction)')
         A = None
         while A is None:
             M = [[r.randint(-4, 4) / 2.0 for _ in range(k)] for _ in range(k)]
@@ -115,15 +191,15 @@ class C17(PropCheck):
         c = [r.randint(-8, 8) / 2.0 for _ in range(k)]
         return dict(kind='adj', summ=summ, obs=obs, params=params, use_names=r.random() < 0.7, A=A, c=c)
 
-    def gen_compare(self, malformed=False):
+    def gen_compare(self, malformed=False, nonfinite=False):
         r = self.rng
-        nm = r.randint(1, 4)
-        style = r.choice(['ties', 'ties', 'distinct', 'wide'])
+        nm = r.randint(2, 4) if nonfinite else r.randint(1, 4)
+        style = r.choice(['ties', 'distinct', 'distinct', 'wide']) if nonfinite else r.choice(['ties', 'ties', 'distinct', 'wide'])
         samples = []
         pool = list(range(0, 60))
         r.shuffle(pool)
         for i in range(nm):
-            ns = r.choice([0, 1, 2, 3, 3, 4, 5, 6]) if r.random() < 0.15 else r.randint(1, 6)
+            ns = r.choice([0, 1, 2, 3, 3, 4, 5, 6]) if r.random() < 0.15 and not nonfinite else r.randint(1, 6)
             if style == 'ties':
                 d = [r.randint(0, 4) for _ in range(ns)]
             elif style == 'distinct':
@@ -133,6 +209,27 @@ class C17(PropCheck):
             if r.random() < 0.5:
                 d = sorted(d)
             samples.append([d, r.choice([1, 2, 5, 10, 10, 20, 50, r.randint(1, 1000)])])
+        if nonfinite:
+            # a Sample that is NOT the last one holds inf / nan discrepancies (anywhere in its vector), and a LATER
+            # model owns the strictly smallest discrepancy of all, hence one of the n_min smallest
+            a = r.randrange(nm - 1)
+            b = r.randint(a + 1, nm - 1)
+            da = samples[a][0]
+            for pos in r.sample(range(len(da)), r.randint(1, len(da))):
+                da[pos] = r.choice(['inf', 'inf', 'nan', 'nan', '-inf'] if r.random() < 0.15 else ['inf', 'nan'])
+            if not any(x in ('inf', 'nan') for x in da):
+                da[r.randrange(len(da))] = r.choice(['inf', 'nan'])
+            samples[b][0][r.randrange(len(samples[b][0]))] = -1.0
+            for i in range(nm):   # sometimes further non-finite values elsewhere (also in the last sample)
+                if i != a and r.random() < 0.25:
+                    di = samples[i][0]
+                    pos = r.randrange(len(di))
+                    if di[pos] != -1.0:
+                        di[pos] = r.choice(['inf', 'nan'])
+            self.bump('cmp:nonfinite_in_nonlast_sample')
+            kinds = {x for d, _ in samples for x in d if isinstance(x, str)}
+            for kd in sorted(kinds):
+                self.bump('cmp:nonfinite=' + kd)
         pri = None
         if r.random() < 0.6:
             pri = [r.choice([0, 1, 1, 2, 3, 4, 8]) / 8.0 for _ in range(nm)]
@@ -154,12 +251,17 @@ class C17(PropCheck):
 
     def generate(self):
         na, nc, nma, nmc = (150, 220, 12, 16) if self.tier == 'quick' else (2200, 3000, 120, 160)
+        nx, nnf = (60, 90) if self.tier == 'quick' else (800, 1200)
         for _ in range(na):
             yield self.gen_adjust()
+        for _ in range(nx):
+            yield self.gen_adjust(cross=True)
         for _ in range(nma):
             yield self.gen_adjust(malformed=True)
         for _ in range(nc):
             yield self.gen_compare()
+        for _ in range(nnf):
+            yield self.gen_compare(nonfinite=True)
         for _ in range(nmc):
             yield self.gen_compare(malformed=True)
 
@@ -222,7 +324,7 @@ class C17(PropCheck):
         from elfi.methods.results import Sample
         objs = []
         for d, ns in samples:
-            objs.append(Sample(method_name='Rejection', outputs={'t': np.zeros(len(d)), 'd': np.array(d, dtype=float)},
+            objs.append(Sample(method_name='Rejection', outputs={'t': np.zeros(len(d)), 'd': np.array([dec(x) for x in d], dtype=float)},
                                parameter_names=['t'], discrepancy_name='d', n_sim=ns))
         try:
             p = compare_models(objs, None if priors is None else list(priors))
@@ -245,6 +347,21 @@ class C17(PropCheck):
             sc.append(Fr(cnt) / Fr(ns) * (Fr(priors[i]) if priors is not None else 1))
         tot = sum(sc)
         return None if tot == 0 else [s / tot for s in sc]
+
+    @staticmethod
+    def _reference(samples, priors):
+        """the property's formula, position-free (valid when no tie straddles the cut): with t the n_min-th smallest
+        of all discrepancies in the order -inf < finite < inf < nan, model i gets
+        #(own discrepancies <= t) / n_sim_i * w_i, normalised.  Returns floats, or None when every score is 0."""
+        from fractions import Fraction as Fr
+        keys = sorted(dkey(x) for d, _ in samples for x in d)
+        nmin = min(len(d) for d, _ in samples)
+        sc = []
+        for i, (d, ns) in enumerate(samples):
+            cnt = 0 if nmin == 0 else sum(1 for x in d if dkey(x) <= keys[nmin - 1])
+            sc.append(Fr(cnt) / Fr(ns) * (Fr(priors[i]) if priors is not None else 1))
+        tot = sum(sc)
+        return None if tot == 0 else [float(x / tot) for x in sc]
 
     def run_impl(self, case):
         if case['kind'] == 'adj':
@@ -272,12 +389,12 @@ class C17(PropCheck):
         else:
             samples, priors = case['samples'], case['priors']
             d = self._run_compare(samples, priors)
-            allv = [x for dd, _ in samples for x in dd]
+            allv = [dec(x) for dd, _ in samples for x in dd]
             order = [int(j) for j in np.argsort(np.array(allv, dtype=float))] if allv else []
             cands = [order]
             if allv:
                 st = [int(j) for j in np.argsort(np.array(allv, dtype=float), kind='stable')]
-                rv = sorted(range(len(allv)), key=lambda j: (allv[j], -j))
+                rv = sorted(range(len(allv)), key=lambda j: (dkey(allv[j]), -j))
                 cands += [st, rv]
             well = len(samples) > 0 and (priors is None or len(priors) >= len(samples))
             if d['p'] is not None and well:
@@ -293,40 +410,115 @@ class C17(PropCheck):
                 ps = [samples[i] for i in perm]
                 pp = None if priors is None else [priors[i] for i in perm] + list(priors[len(samples):])
                 d['perm_p'] = self._run_compare(ps, pp)['p']
-                s = sorted(allv)
+                s = sorted(dkey(x) for x in allv)
                 nmin = min(len(dd) for dd, _ in samples)
                 d['clean_cut'] = bool(nmin == len(s) or nmin == 0 or s[nmin - 1] < s[nmin])
+                d['reference'] = self._reference(samples, priors) if d['clean_cut'] else None
             return d
 
     # ------------------------------------------------------------------------------------------
+    PY_CAP = 3     # reported failures per python clause and run (each one writes a replay; a broken tree fails hundreds)
+
     def py_check(self, case, out):
+        res = []
+        for clause, msg in self._py_check(case, out):
+            self._py_seen = getattr(self, '_py_seen', {})
+            self._py_seen[clause] = self._py_seen.get(clause, 0) + 1
+            if self._py_seen[clause] <= self.PY_CAP:
+                res.append((clause, msg))
+        return res
+
+    def _py_check(self, case, out):
         fails = []
         if case['kind'] == 'adj':
             if not out.get('same_by_string', True):
                 fails.append(('string_spec', "adjust_posterior(..., 'linear') differs from LinearAdjustment() instance"))
             if 'out' in out:
+                # (a) per parameter: exactly the rows whose summaries and THIS parameter are finite, original order,
+                #     value theta_i - (s_i - s_obs).coef_ -- every comparison below is guarded by a length test
+                rows_ok = self._rows_check(case, out, fails)
                 aff = out.get('affine')
                 for q, orc in enumerate(out['oracle']):
-                    if not orc['full']:
+                    if not orc['full'] or not rows_ok[q]:
                         continue
-                    if not isinstance(aff, list):
-                        fails.append(('affine_invariance', 'affine re-expressed run failed: %s' % aff))
+                    if not isinstance(aff, list) or len(aff) <= q:
+                        fails.append(('affine_invariance', 'affine re-expressed run failed: %s' % (aff,)))
                         break
-                    a, b = np.array(out['out'][q]), np.array(aff[q])
-                    if a.shape != b.shape:
-                        fails.append(('affine_invariance', 'parameter %d: %d values vs %d after affine re-expression' % (q, len(a), len(b))))
+                    a, b = np.array(out['out'][q], dtype=float).ravel(), np.array(aff[q], dtype=float).ravel()
+                    th = np.array([dec(x) for x, mk in zip(case['params'][q], orc['mask']) if mk], dtype=float)
+                    if not (len(a) == len(b) == len(th)):
+                        fails.append(('affine_invariance', 'parameter %d: %d values, %d after affine re-expression, %d rows expected'
+                                      % (q, len(a), len(b), len(th))))
                         continue
-                    scale = 1 + np.abs(a) + np.abs(np.array([dec(x) for x, mk in zip(case['params'][q], orc['mask']) if mk]))
+                    scale = 1 + np.abs(a) + np.abs(th)
                     if len(a) and np.max(np.abs(a - b) / scale) > 1e-8:
                         fails.append(('affine_invariance', 'parameter %d: adjusted values change under invertible affine map of summaries, max rel diff %.3g'
                                       % (q, float(np.max(np.abs(a - b) / scale)))))
         else:
-            if out.get('p') is not None and 'perm_p' in out and out.get('clean_cut'):
-                pp = out['perm_p']
-                want = [out['p'][i] for i in case['perm']]
-                if pp is None or len(pp) != len(want) or any(abs(a - b) > 1e-12 for a, b in zip(pp, want)):
-                    fails.append(('permutation', 'compare_models of permuted models %s = %s, expected %s' % (case['perm'], pp, want)))
+            nm = len(case['samples'])
+            p = out.get('p')
+            if p is not None and 'perm_p' in out:
+                if len(p) != nm:
+                    fails.append(('compare_length', 'compare_models returned %d probabilities for %d models' % (len(p), nm)))
+                    return fails
+                if abs(sum(p) - 1.0) > 1e-12:
+                    fails.append(('sum_to_one', 'compare_models result %s sums to %r' % (p, sum(p))))
+            if 'perm_p' in out and out.get('clean_cut'):
+                # no tie straddles the cut: the result is determined by the values alone.  Non-finite discrepancies
+                # are simply the largest values (numpy sort order: finite < inf < nan); `reference` is the
+                # property's formula under that order
+                ref = out.get('reference')
+                if (ref is None) != (p is None):
+                    fails.append(('compare_formula', 'compare_models = %s, the formula (share of the n_min jointly smallest '
+                                  'discrepancies / n_sim x prior weight, normalised; inf/nan = largest values) gives %s' % (p, ref)))
+                elif ref is not None and p is not None and any(abs(a - b) > 1e-12 for a, b in zip(ref, p)):
+                    fails.append(('compare_formula', 'compare_models = %s, the formula (share of the n_min jointly smallest '
+                                  'discrepancies / n_sim x prior weight, normalised; inf/nan = largest values) gives %s' % (p, ref)))
+                if p is not None:
+                    pp = out['perm_p']
+                    want = [p[i] for i in case['perm']]
+                    if pp is None or len(pp) != len(want) or any(abs(a - b) > 1e-12 for a, b in zip(pp, want)):
+                        fails.append(('permutation', 'compare_models of permuted models %s = %s, expected %s' % (case['perm'], pp, want)))
         return fails
+
+    def _rows_check(self, case, out, fails):
+        """length-safe comparison of the adjusted arrays with the per-parameter expectation; returns per parameter
+        whether the row count is the expected one (so that later element-wise comparisons are legal)."""
+        S = np.array([[dec(x) for x in row] for row in case['summ']], dtype=float)
+        o = np.array([dec(x) for x in case['obs']], dtype=float)
+        with np.errstate(all='ignore'):
+            X = S - o
+        fin_s = np.isfinite(X).all(axis=1)
+        npar = len(case['params'])
+        res = [False] * npar
+        outs = out.get('out')
+        if not isinstance(outs, list) or len(outs) != npar:
+            fails.append(('adjusted_rows', 'adjusted sample has %s parameter arrays, %d expected'
+                          % (len(outs) if isinstance(outs, list) else outs, npar)))
+            return res
+        coefs = out.get('coef') or []
+        for q in range(npar):
+            th = np.array([dec(x) for x in case['params'][q]], dtype=float)
+            mask = fin_s & np.isfinite(th)          # THIS parameter only, not the other parameters
+            k = int(mask.sum())
+            got = np.asarray(outs[q], dtype=float).ravel()
+            if len(got) != k:
+                other = [int((fin_s & np.isfinite(np.array([dec(x) for x in col], dtype=float))).sum()) for col in case['params']]
+                fails.append(('adjusted_rows', 'parameter %d: expected the %d rows whose summaries and THIS parameter are finite, got %d rows '
+                              '(finite-row counts per parameter: %s; rows with finite summaries: %d)'
+                              % (q, k, len(got), other, int(fin_s.sum()))))
+                continue
+            res[q] = True
+            if q < len(coefs) and len(coefs[q]) == X.shape[1] and all(math.isfinite(c) for c in coefs[q]):
+                b = np.array(coefs[q], dtype=float)
+                want = th[mask] - X[mask].dot(b)
+                scale = 1 + np.abs(th[mask]) + np.abs(X[mask]).dot(np.abs(b))
+                bad = np.nonzero(~(np.abs(got - want) <= 1e-12 * scale))[0]
+                if len(bad):
+                    r0 = int(np.nonzero(mask)[0][bad[0]])
+                    fails.append(('adjusted_rows', 'parameter %d: value %d of the output is %r, but the %d-th usable row is row %d with '
+                                  'theta - (s - s_obs).coef_ = %r' % (q, int(bad[0]), float(got[bad[0]]), int(bad[0]), r0, float(want[bad[0]]))))
+        return res
 
     def nontrivial(self, case, out):
         if case['kind'] == 'adj':
@@ -342,7 +534,8 @@ class C17(PropCheck):
         else:
             if out.get('p') is None or len(case['samples']) < 2:
                 return None
-            if out.get('clean_cut') and len({ns for _, ns in case['samples']}) < 2 and case['priors'] is None:
+            nonfin_early = any(isinstance(x, str) for d, _ in case['samples'][:-1] for x in d)
+            if out.get('clean_cut') and len({ns for _, ns in case['samples']}) < 2 and case['priors'] is None and not nonfin_early:
                 return None
         return json.dumps(case, sort_keys=True)
 
@@ -370,7 +563,7 @@ class C17(PropCheck):
                 impl, coef, icpt = 'None', '[]', '[]'
             return ('CAdj {| a_summ := %s; a_obs := %s; a_params := %s; a_oracle := %s; a_impl_coef := %s; '
                     'a_impl_icpt := %s; a_impl_out := %s |}' % (rows, obs, pars, orc, coef, icpt, impl))
-        samples = clist(['(%s, %s)' % (cql(d), cq(ns)) for d, ns in case['samples']])
+        samples = clist(['(%s, %s)' % (cql(d), cq(ns)) for d, ns in surrogate(case['samples'])])
         pri = 'None' if case['priors'] is None else '(Some %s)' % cql(case['priors'])
         order = clist([cnat(j) for j in out['order']])
         impl = 'None' if out.get('p') is None else '(Some %s)' % cql(out['p'])
